@@ -66,9 +66,10 @@ def ob_a(ob):
     const = Constants()
     a0r = S.rv(a0)
     first = True
+    pairs = PAIRS + ([(14, 1), (15, 8), (17, 11), (9, 5), (8, 4), (16, 16), (13, 7)] if ob.tier == "thorough" else [])
     for method in ("MNDO", "AM1", "PM3"):
         for direction in ((1, 0, 0), (Fraction(1, 2), Fraction(-1, 4), Fraction(3, 4))):
-            for (zi, zj) in PAIRS:
+            for (zi, zj) in pairs:
                 # one pair per symbolic run keeps the Ackermann congruence constraints small
                 S.reset()
                 npairs = 1
